@@ -766,6 +766,19 @@ fn sx_pat(p: &syn::Pat) -> String {
         }
         syn::Pat::Reference(r) if r.mutability.is_none() => sx_pat(&r.pat),
         syn::Pat::Type(t) => sx_pat(&t.pat),
+        syn::Pat::Struct(st) if st.qself.is_none() => {
+            // `Path { field, field: pat, .. }`
+            let mut o = format!("(pstruct {}", sx_path(&st.path));
+            for f in &st.fields {
+                let name = match &f.member {
+                    syn::Member::Named(i) => i.to_string(),
+                    syn::Member::Unnamed(n) => n.index.to_string(),
+                };
+                o.push_str(&format!(" (pf {} {})", q(&name), sx_pat(&f.pat)));
+            }
+            o.push(')');
+            o
+        }
         other => format!("(unsupported {})", q(&format!("pat {}", ts(other)))),
     }
 }
@@ -850,6 +863,36 @@ fn sx_macro(m: &syn::Macro) -> String {
             }
         }
         "vec" if m.tokens.is_empty() => "(array)".into(),
+        "format" => {
+            // (format "<template>" args..): the template and the argument expressions
+            struct FmtArgs(syn::LitStr, Vec<syn::Expr>);
+            impl syn::parse::Parse for FmtArgs {
+                fn parse(input: syn::parse::ParseStream) -> syn::Result<Self> {
+                    let l: syn::LitStr = input.parse()?;
+                    let mut v = Vec::new();
+                    while !input.is_empty() {
+                        input.parse::<syn::Token![,]>()?;
+                        if input.is_empty() {
+                            break;
+                        }
+                        v.push(input.parse::<syn::Expr>()?);
+                    }
+                    Ok(FmtArgs(l, v))
+                }
+            }
+            match syn::parse2::<FmtArgs>(m.tokens.clone()) {
+                Ok(FmtArgs(l, args)) => {
+                    let mut o = format!("(format {}", q(&l.value()));
+                    for a in &args {
+                        o.push(' ');
+                        o.push_str(&sx_expr(a));
+                    }
+                    o.push(')');
+                    o
+                }
+                Err(_) => format!("(unsupported {})", q(&format!("macro {}", ts(m)))),
+            }
+        }
         _ => format!("(unsupported {})", q(&format!("macro {}", ts(m)))),
     }
 }
@@ -937,12 +980,25 @@ fn sx_expr(e: &syn::Expr) -> String {
                 None => format!("(if {} {})", cond, sx_block(&i.then_branch)),
             }
         }
+        syn::Expr::Try(t) => format!("(try {})", sx_expr(&t.expr)),
+        syn::Expr::Closure(c) if c.capture.is_none() && c.asyncness.is_none() => {
+            let mut o = String::from("(closure (cparams");
+            for i in &c.inputs {
+                o.push(' ');
+                o.push_str(&sx_pat(i));
+            }
+            o.push_str(&format!(") {})", sx_expr(&c.body)));
+            o
+        }
         syn::Expr::Match(m) => {
             let mut o = format!("(match {}", sx_expr(&m.expr));
             for a in &m.arms {
-                match &a.guard {
-                    Some((_, g)) => o.push_str(&format!(" (arm {} (guard {}) {})", sx_pat(&a.pat), sx_expr(g), sx_expr(&a.body))),
-                    None => o.push_str(&format!(" (arm {} {})", sx_pat(&a.pat), sx_expr(&a.body))),
+                // an arm compiled conditionally carries its condition: (armc "<cfg tokens>" pat body)
+                let cfgs: Vec<String> = a.attrs.iter().filter(|x| x.path().is_ident("cfg")).map(|x| ts(&x.meta)).collect();
+                match (&a.guard, cfgs.is_empty()) {
+                    (Some((_, g)), _) => o.push_str(&format!(" (arm {} (guard {}) {})", sx_pat(&a.pat), sx_expr(g), sx_expr(&a.body))),
+                    (None, true) => o.push_str(&format!(" (arm {} {})", sx_pat(&a.pat), sx_expr(&a.body))),
+                    (None, false) => o.push_str(&format!(" (armc {} {} {})", q(&cfgs.join(" && ")), sx_pat(&a.pat), sx_expr(&a.body))),
                 }
             }
             o.push(')');
